@@ -92,7 +92,12 @@ func VerifC04History() {
 	vis := under
 	var cpIdx [c04MaxOps]int
 	var cpSnap [c04MaxOps][c04MaxKeys]c04opt
-	ncp := 0
+	// the state of the fresh view is a checkpoint for free (Transaction.Execute rolls a failed transaction back to the
+	// op index it recorded before the first action), so that two operations on one key followed by a rollback fit
+	// into three operations
+	cpIdx[0] = v.OpIndex()
+	cpSnap[0] = vis
+	ncp := 1
 	n := 1 + verifChoose("n", maxOps)
 	for i := 0; i < n; i++ {
 		switch verifChoose("op", 4) {
